@@ -105,3 +105,32 @@ uint32_t __vstd_fmt_double_c(double v, uint32_t prec, uint8_t *buf, uint32_t cap
     return (uint32_t)(n < (int)cap ? n : (int)cap - 1);
 #endif
 }
+
+/* libm under CBMC: exact on the powers of ten that the units code produces within the bounds of the harnesses
+   (the contract log10(10^k) = k, pow(10, k) = 10^k is compared with the real libm in `fw/selftest.py`);
+   any other argument yields an unconstrained (nondeterministic) finite value, so nothing is proved from it. */
+#ifdef __CPROVER__
+static const double vrt_p10[] = {1e-12, 1e-11, 1e-10, 1e-9, 1e-8, 1e-7, 1e-6, 1e-5, 1e-4, 1e-3, 1e-2, 1e-1, 1e0, 1e1, 1e2, 1e3, 1e4, 1e5, 1e6, 1e7, 1e8, 1e9, 1e10, 1e11, 1e12};
+uint32_t __vrt_libm_inexact = 0; /* set when libm was asked for a value outside the exact table */
+double log10(double x)
+{
+    for (int k = 0; k < 25; ++k) if (x == vrt_p10[k]) return (double)(k - 12);
+    __vrt_libm_inexact = 1;
+    double v = nondet_double();
+    __CPROVER_assume(v == v && v != __builtin_huge_val() && v != -__builtin_huge_val());
+    return v;
+}
+double pow(double b, double e)
+{
+    if (e == 0.0) return 1.0;
+    if (e == 1.0) return b;
+    if (b == 10.0) { for (int k = 0; k < 25; ++k) if (e == (double)(k - 12)) return vrt_p10[k]; }
+    if (b == 1.0) return 1.0;
+    __vrt_libm_inexact = 1;
+    double v = nondet_double();
+    __CPROVER_assume(v == v && v != __builtin_huge_val() && v != -__builtin_huge_val());
+    return v;
+}
+#else
+uint32_t __vrt_libm_inexact = 0;
+#endif
